@@ -312,6 +312,8 @@ func doOp(s *linker.Symbols, files map[int64]protoreflect.FileDescriptor, op map
 //	         with probe, around every failed import the outcome of Import(g) for every file g before and after it
 //	conc:    files, parts (list of op lists, one goroutine each), spin (extra lookup goroutines), unames, uexts
 //	         -> per part the op results, final dump and lookups
+//	stress:  files, parts, spin, reps -> the concurrent partitioned import repeated on fresh tables, compared with
+//	         the parts imported one after another
 //	compile: sources (path -> text), parts (list of lists of paths; one Compiler.Compile each, sharing Symbols),
 //	         concurrent bool, reuse bool (sequential: later parts resolve already compiled files to those results),
 //	         unames, uexts -> per part the canonical error, final lookups
@@ -405,6 +407,78 @@ func symbolsCase(in map[string]any) map[string]any {
 			rs[i] = r
 		}
 		return map[string]any{"walks": walks, "results": rs, "dump": dump(s), "look": u.look(s)}
+	case "stress":
+		// the same concurrent partitioned import repeated on fresh tables: how many repetitions
+		// reported a collision, and how many ended with lookups different from the reference
+		files, _, err := buildFiles(vhlib.List(in, "files"))
+		if err != nil {
+			return map[string]any{"builderr": err.Error()}
+		}
+		u := readUniverse(in)
+		parts := vhlib.List(in, "parts")
+		reps := int(vhlib.Num(in, "reps"))
+		spin := int(vhlib.Num(in, "spin"))
+		// reference: the parts one after another
+		ref := &linker.Symbols{}
+		refErr := false
+		for _, pa := range parts {
+			ops, _ := pa.([]any)
+			for _, oa := range ops {
+				if r := doOp(ref, files, asMap(oa)); r["e"] != "ok" {
+					refErr = true
+				}
+			}
+		}
+		refLook := fmt.Sprint(u.look(ref))
+		nerr, ndiff := 0, 0
+		var firstDiff map[string]any
+		for rep := 0; rep < reps; rep++ {
+			s := &linker.Symbols{}
+			start := make(chan struct{})
+			var wg sync.WaitGroup
+			var mu sync.Mutex
+			anyErr := false
+			for _, pa := range parts {
+				ops, _ := pa.([]any)
+				wg.Add(1)
+				go func() {
+					defer wg.Done()
+					<-start
+					for _, oa := range ops {
+						if r := doOp(s, files, asMap(oa)); r["e"] != "ok" {
+							mu.Lock()
+							anyErr = true
+							mu.Unlock()
+						}
+					}
+				}()
+			}
+			for k := 0; k < spin; k++ {
+				wg.Add(1)
+				go func() {
+					defer wg.Done()
+					<-start
+					for r := 0; r < 3; r++ {
+						_ = u.look(s)
+					}
+				}()
+			}
+			close(start)
+			wg.Wait()
+			if anyErr {
+				nerr++
+			}
+			if !anyErr && !refErr {
+				if l := u.look(s); fmt.Sprint(l) != refLook {
+					ndiff++
+					if firstDiff == nil {
+						firstDiff = l
+					}
+				}
+			}
+		}
+		return map[string]any{"ref_err": refErr, "ref_look": u.look(ref), "reps": reps, "reps_with_error": nerr,
+			"reps_with_other_lookups": ndiff, "first_other_look": firstDiff}
 	case "compile":
 		srcs := map[string]string{}
 		for k, v := range asMap(in["sources"]) {
